@@ -48,7 +48,9 @@ func (P) Gen(r *core.Rand, tier string, emit func([]string)) {
 			specs = append(specs, s)
 			core.Count("msg:" + s.Class())
 			mode := "p"
-			if r.Chance(1, 4) {
+			if r.Chance(1, 6) {
+				mode = "l" // repeated field names spelled in different case on the wire
+			} else if r.Chance(1, 4) {
 				// struct fields that disagree with same-named keys of the header map (a modifier
 				// changed the field after the message was parsed)
 				if label, m := msggen.Disagree(r, a); label != "" {
